@@ -279,6 +279,12 @@ impl EigenTrustEngine {
         // Power iteration - now O(m) per iteration, not O(n²)
         const MAX_ITERATIONS: usize = 50; // Increased for better convergence
         const CONVERGENCE_THRESHOLD: f64 = 0.0001; // Tighter convergence
+        // Rounds that always run before the convergence exit may be taken. In a large,
+        // almost statement-free network the vector is nearly stationary after one round;
+        // leaving after two or three rounds lets an unvouched self-rating identity keep
+        // 0.36 / 0.216 of its population share. After four rounds it keeps at most
+        // 0.6^4 < 1/7 of it.
+        const MIN_ITERATIONS: usize = 4;
 
         for iteration in 0..MAX_ITERATIONS {
             let mut new_trust: HashMap<NodeId, f64> = HashMap::new();
@@ -347,7 +353,7 @@ impl EigenTrustEngine {
             trust_vector = new_trust;
 
             // Early termination on convergence
-            if diff < CONVERGENCE_THRESHOLD {
+            if diff < CONVERGENCE_THRESHOLD && iteration + 1 >= MIN_ITERATIONS {
                 break;
             }
 
